@@ -1676,6 +1676,12 @@ func resolveIndex(v, index reflect.Value, indexAsStr string) (reflect.Value, err
 			ptr = ptr.Addr()
 		}
 		if method := ptr.MethodByName(indexAsStr); method.IsValid() {
+			if isNil && v.Kind() == reflect.Ptr {
+				if _, onValue := v.Type().Elem().MethodByName(indexAsStr); onValue {
+					// the method has a value receiver: calling it would dereference the nil pointer
+					return reflect.Value{}, fmt.Errorf("nil pointer evaluating %s.%s", v.Type(), indexAsStr)
+				}
+			}
 			return method, nil
 		}
 	}
